@@ -429,9 +429,9 @@ func (e *engine) checkErrorClass(c *patchCase, ec lib.ErrClass, what string, obs
 // ops ++ tail is the outcome of ops, whatever the tail is.
 func (e *engine) checkTails(worker int, c *patchCase, viol func(string, string, map[string]interface{}) *lib.Violation, hang func() *lib.Violation) {
 	tails := [][]string{
-		{`{"op":"test","path":"","value":"no document equals this string"}`},                                                  // would fail differently
-		{`{"op":"add","path":"","value":{"tail":1}}`, `{"op":"test","path":"/tail","value":1}`},                                // would succeed
-		{`{"op":"copy","from":"","path":"/tail"}`, `{"op":"remove","path":"/definitely/not/there"}`},                           // copy + missing
+		{`{"op":"test","path":"","value":"no document equals this string"}`},                         // would fail differently
+		{`{"op":"add","path":"","value":{"tail":1}}`, `{"op":"test","path":"/tail","value":1}`},      // would succeed
+		{`{"op":"copy","from":"","path":"/tail"}`, `{"op":"remove","path":"/definitely/not/there"}`}, // copy + missing
 	}
 	for ti, tail := range tails {
 		patch := joinPatch(append(append([]string{}, c.opTexts...), tail...))
